@@ -109,6 +109,13 @@ def showRoute (r : Route) : String :=
 def showRoutes (rs : List Route) : String :=
   if rs.isEmpty then "err" else " ".intercalate (rs.map showRoute)
 
+/-- The virtual-host table of a route configuration: `ip=<ignore port>` and, sorted, one entry
+    `name[domains]<requireTls>#<number of routes>` per virtual host. -/
+def showVHostTable (ignorePort : Bool) (vhs : List VirtualHost) : String :=
+  "ip=" ++ boolTok ignorePort ++ " " ++
+    " ".intercalate (sortStrings (vhs.map fun v =>
+      enc v.name ++ "[" ++ encList v.domains ++ "]" ++ boolTok v.requireTls ++ "#" ++ toString v.routes.length))
+
 def showDecision : Decision → String
   | .forward d => "fwd:" ++ showDist d
   | .redirect r => showRedirect r
@@ -125,7 +132,7 @@ structure DState where
   vs : VirtualService := {}
   vh : VHDriver := {}
   mesh : Mesh := {}
-  gw : Gateway := {}
+  gws : List Gateway := []      -- creation order; servers are added to the last one
   gvss : List GwVS := []
   gwRoute : String := ""
   gwBuilt : Bool := false
@@ -235,26 +242,29 @@ def stepD (d : DState) (toks : List String) : DState × String :=
   | ["gsvc", h, _ns, ports] =>
     ({ d with ctx := { d.ctx with services := d.ctx.services ++ [{ host := dec h, ports := (decList ports).map String.toNat! }] },
               gwBuilt := false }, "ok")
-  | ["gateway", name, ns, _sel] => ({ d with gw := { name := dec name, ns := dec ns, servers := [] }, gwBuilt := false }, "ok")
+  | ["gateway", name, ns, _sel] =>
+    ({ d with gws := d.gws ++ [{ name := dec name, ns := dec ns, servers := [] }], gwBuilt := false }, "ok")
   | ["server", port, proto, pname, hosts, tls, redirect] =>
     let https := proto == "HTTPS"
     let sv : GwServer := { port := port.toNat!, https := https, portName := dec pname, hosts := decList hosts,
                            hasTLS := tokBool tls || https, redirect := tokBool redirect && !https }
-    ({ d with gw := { d.gw with servers := d.gw.servers ++ [sv] }, gwBuilt := false }, "ok")
+    match d.gws.reverse with
+    | [] => (d, "ok")
+    | g :: rest => ({ d with gws := ({ g with servers := g.servers ++ [sv] } :: rest).reverse, gwBuilt := false }, "ok")
   | ["gvs", gws] =>
     if d.vs.http.isEmpty || d.gvss.any (fun v => v.vs.name == d.vs.name) then (d, "ok")
     else ({ d with gvss := d.gvss ++ [{ vs := d.vs, gateways := decList gws }], gwBuilt := false }, "ok")
   | ["grds", ns, labels, rn] =>
-    ({ d with ctx := { d.ctx with proxyNamespace := dec ns, proxyLabels := decPairs labels },
-              gwRoute := dec rn, gwBuilt := true }, "ok")
+    let c2 : Ctx := { d.ctx with proxyNamespace := dec ns, proxyLabels := decPairs labels }
+    ({ d with ctx := c2, gwRoute := dec rn, gwBuilt := true }, showVHostTable true (gwVHosts c2 d.gws d.gvss (dec rn)))
   | "greq" :: f =>
     match decReq f with
     | none => (d, "bad-op")
     | some (req, re) =>
       if !d.gwBuilt then (d, "no-grds") else
       -- the model of buildGatewayHTTPRouteConfig under the Lean Envoy semantics, checked against the SPEC
-      let m := evalRouteConfig re (gwVHosts d.ctx d.gw d.gvss d.gwRoute) req
-      let sp := gwSpec re d.ctx d.gw d.gvss d.gwRoute req
+      let m := evalRouteConfig re true (gwVHosts d.ctx d.gws d.gvss d.gwRoute) req
+      let sp := gwSpec re d.ctx d.gws d.gvss d.gwRoute req
       (d, showDecision m ++ (if sp == m then "" else " !spec:" ++ showDecision sp))
   | ["msvc", h, ns, ports, addr] =>
     let ps := (decList ports).map String.toNat!
@@ -265,19 +275,23 @@ def stepD (d : DState) (toks : List String) : DState × String :=
     if d.vs.http.isEmpty || d.mesh.vss.any (fun v => v.name == d.vs.name) then (d, "ok")
     else ({ d with mesh := { d.mesh with vss := d.mesh.vss ++ [d.vs], built := false } }, "ok")
   | ["rds", ns, labels, port] =>
-    ({ d with ctx := { d.ctx with proxyNamespace := dec ns, proxyLabels := decPairs labels, gatewayNames := ["mesh"],
-                                  listenPort := port.toNat! },
-              mesh := { d.mesh with proxyDomain := dec ns ++ ".svc.cluster.local", built := true } }, "ok")
+    let c2 : Ctx := { d.ctx with proxyNamespace := dec ns, proxyLabels := decPairs labels, gatewayNames := ["mesh"],
+                                 listenPort := port.toNat! }
+    let m2 : Mesh := { d.mesh with proxyDomain := dec ns ++ ".svc.cluster.local", built := true }
+    ({ d with ctx := c2, mesh := m2 }, showVHostTable true (sidecarRDS c2 m2))
   | "rreq" :: f =>
     match decReq f with
     | none => (d, "bad-op")
     | some (req, re) =>
       if !d.mesh.built then (d, "no-rds") else
       -- the composed model of the route configuration under the Lean Envoy semantics, checked against the SPEC
-      let mo := evalRouteConfig re (sidecarRDS d.ctx d.mesh) req
-      let sp := meshSpec re d.ctx d.mesh req
-      let cert := if rdsCert d.ctx d.mesh then "" else " !cert"   -- hypotheses of sidecar_rds_correct
-      (d, showDecision mo ++ (if sp == mo then "" else " !spec:" ++ showDecision sp) ++ cert)
+      let mo := evalRouteConfig re true (sidecarRDS d.ctx d.mesh) req
+      -- the SPEC is silent (`none`) for contested names
+      match meshSpecC re d.ctx d.mesh req with
+      | none => (d, showDecision mo)
+      | some sp =>
+        -- a deviation of the known class F-C12-6 (certWild fails) is left to the oracle, which classifies it
+        (d, showDecision mo ++ (if sp == mo || !certWild d.ctx d.mesh then "" else " !spec:" ++ showDecision sp))
   | ["acc"] => ({ d with vh := { d.vh with acc := d.vh.acc ++ compile d.ctx d.vs } }, "ok")
   | ["sortv"] => (d, showRoutes (sortVHostRoutes d.vh.acc))
   | "sreq" :: f =>
